@@ -20,8 +20,8 @@ class Ctx:
         self.cache: dict = {}
 
 
-def run_rules(prop: str, tier: str, repo: str | None = None):
-    project = Project(repo) if repo else Project()
+def run_rules(prop: str, tier: str, repo: str | None = None, overlay: dict | None = None):
+    project = Project(repo, overlay) if repo else Project(overlay=overlay)
     ctx = Ctx(project, tier)
     results: list[RuleResult] = []
     for rule in rules_for(prop):
